@@ -349,6 +349,8 @@ pub enum Comp {
     Stored,
     /// zlib level 0..=9
     Deflate(u32),
+    /// zlib level 0..=9, kept even when the stream is longer than the table
+    DeflateAlways(u32),
 }
 
 #[derive(Clone, Debug)]
@@ -397,6 +399,8 @@ pub struct WoffEncoded {
     pub deflated: Vec<bool>,
     /// tables for which deflate was requested but did not shrink the data (stored instead)
     pub fell_back: usize,
+    /// tables stored as a zlib stream that is longer than the table (compLength > origLength)
+    pub oversize: usize,
     pub total_sfnt_size: u32,
     pub meta_at: (u32, u32, u32),
     pub priv_at: (u32, u32),
@@ -415,11 +419,30 @@ pub fn encode_woff(flavour: u32, tables: &[(Tag, &[u8])], lay: &WoffLayout) -> W
     let mut stored: Vec<Vec<u8>> = Vec::new();
     let mut deflated = Vec::new();
     let mut fell_back = 0;
+    let mut oversize = 0usize;
     for (i, (_, d)) in tables.iter().enumerate() {
         match cyc(&lay.comp, i, Comp::Stored) {
             Comp::Stored => {
                 stored.push(d.to_vec());
                 deflated.push(false);
+            }
+            Comp::DeflateAlways(level) => {
+                // an encoder that compresses every table even when that makes it longer
+                // (compLength > origLength): not what the format asks of encoders, but the entry
+                // is unambiguous (compLength != origLength <=> zlib stream). Only an equal
+                // length has to fall back, because equality *means* stored.
+                let z = zlib(d, level);
+                if z.len() != d.len() {
+                    if z.len() > d.len() {
+                        oversize += 1;
+                    }
+                    stored.push(z);
+                    deflated.push(true);
+                } else {
+                    stored.push(d.to_vec());
+                    deflated.push(false);
+                    fell_back += 1;
+                }
             }
             Comp::Deflate(level) => {
                 let z = zlib(d, level);
@@ -526,6 +549,7 @@ pub fn encode_woff(flavour: u32, tables: &[(Tag, &[u8])], lay: &WoffLayout) -> W
         entries,
         deflated,
         fell_back,
+        oversize,
         total_sfnt_size: total_sfnt_size as u32,
         meta_at,
         priv_at,
